@@ -629,8 +629,8 @@ def r3_periodic(ctx):
             if isinstance(st, ast.Assign) and isinstance(st.targets[0], ast.Name):
                 comp[st.targets[0].id] = st.value
         app = [c for c in ast.walk(inner) if isinstance(c, ast.Call) and isinstance(c.func, ast.Attribute) and c.func.attr == "append"]
-        ctx.need(len(app) == 1 and isinstance(app[0].args[0], (ast.List, ast.Tuple)), "periodic_shift.append([x, y, z])")
-        elem, anchor = app[0].args[0], loops[0]
+        ctx.need(len(app) == 1 and three_components(app[0].args[0]) is not None, "periodic_shift.append([x, y, z])")
+        elem, anchor = three_components(app[0].args[0]), loops[0]
     elif len(loops) == 1 and isinstance(loops[0].target, (ast.Tuple, ast.List)) and len(loops[0].target.elts) == 3 \
             and product_sets(loops[0].iter, 3) is not None:
         lv = [e.id for e in loops[0].target.elts]
@@ -639,8 +639,8 @@ def r3_periodic(ctx):
             if isinstance(st, ast.Assign) and isinstance(st.targets[0], ast.Name):
                 comp[st.targets[0].id] = st.value
         app = [c for c in ast.walk(loops[0]) if isinstance(c, ast.Call) and isinstance(c.func, ast.Attribute) and c.func.attr == "append"]
-        ctx.need(len(app) == 1 and isinstance(app[0].args[0], (ast.List, ast.Tuple)), "periodic_shift.append([x, y, z])")
-        elem, anchor = app[0].args[0], loops[0]
+        ctx.need(len(app) == 1 and three_components(app[0].args[0]) is not None, "periodic_shift.append([x, y, z])")
+        elem, anchor = three_components(app[0].args[0]), loops[0]
     elif len(comps) == 1:
         c_ = comps[0]
         gens = c_.generators
@@ -710,8 +710,12 @@ def r4_box(ctx):
             break
         loops.append(nxt[0]); x = nxt[0]
     ctx.need(len(loops) == 3, "repeat_box_coord: three nested loops")
-    cond = next((s for s in loops[2].body if isinstance(s, ast.If)), None)
-    ctx.need(cond is not None, "repeat_box_coord: centre-box exclusion")
+    # (a guard clause `if centre: continue` is the same exclusion written the other way round)
+    from ..normalize import _dissolve_continue
+    inner_body = _dissolve_continue(list(loops[2].body))
+    cond = next((s for s in inner_body if isinstance(s, ast.If)), None)
+    ctx.need(cond is not None and any(isinstance(c_, ast.Call) and isinstance(c_.func, ast.Attribute) and c_.func.attr == "append" for c_ in ast.walk(cond)),
+             "repeat_box_coord: centre-box exclusion around the statement that adds a copy")
     ret = ret_expr(r)
     ctx.need(isinstance(ret, ast.Tuple) and isinstance(ret.elts[1], ast.Call) and call_name(ret.elts[1]) == "np.tile", "np.tile(...) index return")
     reps = ret.elts[1].args[1]
